@@ -247,7 +247,8 @@ def nontrivial(n, w, dist):
 
 def judge_graph(gid, g, results):
     """results: one CaseResult for all five zones, or {zone letter: CaseResult}.
-    -> (route answers judged, nontrivial?, problem or None); problem = (rule, zone kind, pair, detail)."""
+    -> (route answers judged, nontrivial?, problems); problems = [(rule, zone kind, pair, detail)], the first of each
+    (rule, zone kind) so that one defect does not hide another."""
     n = g["n"]
     w = {}
     for m, a, b, x in g["decl"]:
@@ -257,15 +258,22 @@ def judge_graph(gid, g, results):
     dist = bellman_ford(n, w)
     judged = 0
     counts = {}
+    probs = {}
+
+    def bad(rule, kind, pair, detail):
+        probs.setdefault((rule, kind), (rule, kind, pair, detail))
+
     for letter, kind in KINDS:
         z = "%s%s" % (gid, letter)
         res = results[letter] if isinstance(results, dict) else results
         if res.crash or res.builderr or not res.complete:
-            return (judged,) + dead(res, kind)[1:]
+            bad(*dead(res, kind)[2])
+            continue
         arcs = declared(g, z)
-        first = {}              # first link of a declared one-hop route -> the arcs that start with it
+        first, last = {}, {}    # first / last link of a declared one-hop route -> the arcs concerned
         for arc, names in arcs.items():
             first.setdefault(names[0], []).append(arc)
+            last.setdefault(names[-1], []).append(arc)
         lat = {}
         for m, a, b, x in g["decl"]:
             for i in range(x):
@@ -274,7 +282,8 @@ def judge_graph(gid, g, results):
         for k in range(2 if letter == "C" else 1):
             ans = res.answers(z, k)
             if ans is None or len(ans[1]) != n * n or sorted(ans[0]) != sorted(host_index):
-                return judged, False, ("no-answer", kind, "-", "query %d of the zone not answered" % k)
+                bad("no-answer", kind, "-", "query %d of the zone not answered" % k)
+                continue
             names, lines = ans
             order = [host_index[x] for x in names]
             pos = -1
@@ -289,39 +298,53 @@ def judge_graph(gid, g, results):
                     rlat, links = res.decode(lines[pos])
                     reach = dist[s][d] != float("inf")
                     if rlat is None:
-                        if not reach:
-                            continue        # no path exists: refusing is fine
-                        return judged, False, ("exception", kind, pair, links[:120])
+                        if reach:
+                            bad("exception", kind, pair, links[:120])
+                        continue            # no path exists: refusing is fine
                     judged += 1
                     if not reach:
                         if links:
-                            return judged, False, ("route-without-path", kind, pair, " ".join(links))
+                            bad("route-without-path", kind, pair, " ".join(links))
                         continue
                     if letter == "U":
                         if links != arcs[(s, d)]:
-                            return judged, False, ("full-not-declared-route", kind, pair,
-                                                   "got %s declared %s" % (" ".join(links), " ".join(arcs[(s, d)])))
+                            bad("full-not-declared-route", kind, pair, "got %s declared %s" % (" ".join(links), " ".join(arcs[(s, d)])))
+                            continue
                     else:
-                        cur, i = s, 0
+                        cur, i, ok = s, 0, True
                         while i < len(links):
                             arc = next((x for x in first.get(links[i], ()) if x[0] == cur), None)
-                            if arc is None or links[i:i + len(arcs[arc])] != arcs[arc]:
-                                return judged, False, ("not-a-chain", kind, pair, "at %s, links %s" % (LETTERS[cur], " ".join(links)))
+                            if arc is not None and links[i:i + len(arcs[arc])] == arcs[arc]:
+                                pass
+                            else:
+                                # the same hop with its links in the opposite order? (reported, then the walk goes on)
+                                arc = next((x for x in last.get(links[i], ()) if x[0] == cur), None)
+                                if arc is not None and links[i:i + len(arcs[arc])] == arcs[arc][::-1]:
+                                    bad("hop-links-reversed", kind, pair, "declared %s, returned %s" %
+                                        (" ".join(arcs[arc]), " ".join(links[i:i + len(arcs[arc])])))
+                                else:
+                                    bad("not-a-chain", kind, pair, "at %s, links %s" % (LETTERS[cur], " ".join(links)))
+                                    ok = False
+                                    break
                             i += len(arcs[arc])
                             cur = arc[1]
+                        if not ok:
+                            continue
                         if cur != d:
-                            return judged, False, ("chain-ends-elsewhere", kind, pair, "ends at %s: %s" % (LETTERS[cur], " ".join(links)))
+                            bad("chain-ends-elsewhere", kind, pair, "ends at %s: %s" % (LETTERS[cur], " ".join(links)))
+                            continue
                         if len(links) != dist[s][d]:
-                            return judged, False, ("not-minimal", kind, pair, "%d links, shortest path has %d: %s" %
-                                                   (len(links), dist[s][d], " ".join(links)))
+                            bad("not-minimal", kind, pair, "%d links, shortest path has %d: %s" % (len(links), dist[s][d], " ".join(links)))
+                            continue
                         counts.setdefault((s, d), set()).add(len(links))
                     want = sum(lat[x] for x in links)
                     if not rc.close(want, rlat):
-                        return judged, False, ("latency", kind, pair, "reported %r, links sum to %r" % (rlat, want))
-    for (s, d), c in counts.items():
+                        bad("latency", kind, pair, "reported %r, links sum to %r" % (rlat, want))
+    for (s, d), c in sorted(counts.items()):
         if len(c) != 1:
-            return judged, False, ("algorithms-disagree", "all", "%s->%s" % (LETTERS[s], LETTERS[d]), "link counts %s" % sorted(c))
-    return judged, nontrivial(n, w, dist), None
+            bad("algorithms-disagree", "all", "%s->%s" % (LETTERS[s], LETTERS[d]), "link counts %s" % sorted(c))
+    plist = [probs[k] for k in sorted(probs)]
+    return judged, nontrivial(n, w, dist), plist
 
 
 def canon(text, gid):
@@ -329,7 +352,7 @@ def canon(text, gid):
 
 
 def run_graphs(exe, graphs, workdir, tag, per_engine=GRAPHS_PER_ENGINE):
-    """graphs: list of g. -> [(g, judged, nontrivial, problem)]; an Engine that died (crash, or killed after BATCH_CPU seconds
+    """graphs: list of g. -> [(g, judged, nontrivial, [problems])]; an Engine that died (crash, or killed after BATCH_CPU seconds
     of CPU) is re-run one zone per Engine with SOLO_CPU seconds each, so that the zone kind that dies is known."""
     named = [("G%d" % i, g) for i, g in enumerate(graphs)]
     batches = [named[i:i + per_engine] for i in range(0, len(named), per_engine)]
@@ -342,16 +365,16 @@ def run_graphs(exe, graphs, workdir, tag, per_engine=GRAPHS_PER_ENGINE):
                 redo += b
             else:
                 for gid, g in b:
-                    j, nt, p = judge_graph(gid, g, r)
-                    out.append((g, j, nt, (p[0], p[1], p[2], canon(p[3], gid)) if p else None))
+                    j, nt, ps = judge_graph(gid, g, r)
+                    out.append((g, j, nt, [(p[0], p[1], p[2], canon(p[3], gid)) for p in ps]))
     else:
         redo = named
     if redo:
         cases = [("%s.%s" % (gid, letter), case_text([(gid, g)], [(letter, kind)])) for gid, g in redo for letter, kind in KINDS]
         res = rc.run_cases(exe, cases, workdir, tag + "-solo", case_cpu=SOLO_CPU)
         for gid, g in redo:
-            j, nt, p = judge_graph(gid, g, {letter: res["%s.%s" % (gid, letter)] for letter, _ in KINDS})
-            out.append((g, j, nt, (p[0], p[1], p[2], canon(p[3], gid)) if p else None))
+            j, nt, ps = judge_graph(gid, g, {letter: res["%s.%s" % (gid, letter)] for letter, _ in KINDS})
+            out.append((g, j, nt, [(p[0], p[1], p[2], canon(p[3], gid)) for p in ps]))
     return out
 
 
@@ -412,9 +435,9 @@ def _worker(arg):
             evals += 1
             judged += j
             nontriv += 1 if nt else 0
-            if p:
-                bad.append((g, p))
-            elif nt and sample is None:
+            for x in p:
+                bad.append((g, x))
+            if nt and sample is None:
                 sample = graph_str(g)
     return evals, judged, nontriv, bad, sample
 
@@ -486,7 +509,8 @@ def run(ctx):
         g = case["graph"]
         g = {"n": g["n"], "decl": [tuple(d) for d in g["decl"]]}
         r = run_graphs(exe, [g], work, "solo%d" % os.getpid(), per_engine=1)[0]
-        return signature(g, r[3]) if r[3] else None
+        sigs = [signature(g, p) for p in r[3]]
+        return case["signature"] if case["signature"] in sigs else (sigs[0] if sigs else None)
     violations = rc.confirm(ctx, violations, rerun)
     shutil.rmtree(work, ignore_errors=True)
     if nontriv < 2 and not violations:
@@ -516,7 +540,8 @@ def replay(ctx, case):
     r = run_graphs(exe, [g], work, "replay", per_engine=1)[0]
     shutil.rmtree(work, ignore_errors=True)
     if r[3]:
-        print("observed: " + signature(g, r[3]))
+        for p in r[3]:
+            print("observed: " + signature(g, p))
         print("recorded: " + c["signature"])
         return 1
     print("no violation on replay (%d answers judged)" % r[1])
